@@ -141,8 +141,13 @@ def pushInner (st : PSt) (name : String) : PSt :=
 def fvalRat : FVal → Rat | .fin q => q | .nonfinite => 0
 def fvalNonfin : FVal → Bool | .fin _ => false | .nonfinite => true
 
-def splitSlash (s : List Char) : List (List Char) :=
-  (String.ofList s).splitOn "/" |>.map (·.toList)
+/-- `strings.Split(lit, "/")` -/
+def splitSlash : List Char → List (List Char)
+  | [] => [[]]
+  | c :: r =>
+    match splitSlash r with
+    | [] => [[]]          -- unreachable: the result is never empty
+    | p :: ps => if c == '/' then [] :: p :: ps else (c :: p) :: ps
 
 /-- result of one step of the machine -/
 inductive Step
@@ -208,7 +213,8 @@ def stepIter (st : PSt) (tok : Tok) (lit : List Char) : Step :=
   | .openpar =>
     if nodeNil st then
       if st.level > 0 then .fail "nil node at depth > 0"
-      else .cont { st with stk := some (⟨⟨"", []⟩, []⟩, []), level := st.level + 1, prev := some .openpar }
+      else .cont { st with stk := some (⟨⟨"", []⟩, []⟩, []), level := st.level + 1, prev := some .openpar,
+                             lastRoot := none }    -- t.SetRoot(node): the previous root is forgotten
     else
       if st.level = 0 then .fail "newick Error: An open parenthesis while the stack is empty"
       else .cont { pushInner st "" with level := st.level + 1, prev := some .openpar }
